@@ -126,6 +126,13 @@ def run(tier, seed, rng):
         if 'changed' in res:
             want['changed'] = [False, True, False]
             dist['changed'] += 1
+        bp = res.get('built_vs_parsed')
+        if isinstance(bp, list) and bp[0] and bp[1:] != [True, True, False]:
+            failures.append(dict(kind='oracle', sig='eq-provenance', what=f"a constructed packet and the parse of its own encoding hold equal fields but compare {bp[1:]} (==, reversed ==, !=)",
+                                 classes=pktprops.class_source(groups, gid), cls=decl.cname(c), value=decl.py_value(v)))
+        elif isinstance(bp, str):
+            failures.append(dict(kind='oracle', sig='eq-raise', what=f"comparing a constructed packet with its re-parse raised {bp}",
+                                 classes=pktprops.class_source(groups, gid), cls=decl.cname(c), value=decl.py_value(v)))
         for k, w in want.items():
             got = res.get(k)
             if got != w:
